@@ -45,6 +45,13 @@ def runStmt (arg : Arg) (cfg : Config) : Stmt → Except Msg Config
   | .failIfNonPos m => match arg with
     | .int i => if i ≤ 0 then .error m else .ok cfg
     | _ => .ok cfg
+  | .setFalse f => .ok (cfg.setBool f false)
+  | .setNotArg f => match arg with
+    | .bool b => .ok (cfg.setBool f !b)
+    | _ => .ok cfg
+  | .setTrueIfArg f => match arg with
+    | .bool true => .ok (cfg.setBool f true)
+    | _ => .ok cfg
 
 def runBody (arg : Arg) : List Stmt → Config → Except Msg Config
   | [], cfg => .ok cfg
